@@ -65,6 +65,8 @@ def configs(ctx):
         los = monotone_orders(chains)
         if quick and len(los) > 3:
             los = [los[0], los[len(los) // 2], los[-1]]
+        elif len(los) > 8:
+            los = los[:: -(-len(los) // 8)]
         for lo in los:
             n = len(lo)
             assigns = list(itertools.product("stu", repeat=n))   # space / time / unstamped
